@@ -446,6 +446,9 @@ func parseGSIBlock(b []byte) (g *gsiBlock, err error) {
 	// Framerate
 	if v, ok := stlFramerateMapping.Get(string(b[3:11])); ok {
 		g.framerate = v.(int)
+	} else {
+		err = fmt.Errorf("astisub: unknown disk format code %q", string(b[3:11]))
+		return
 	}
 
 	// Creation date
